@@ -246,7 +246,9 @@ class Gen:
 
 NAMES = ['x', 'y', 'foo', 'bar_1', '_z', '\xe9', 'spam', 'match', 'case', 'type', 'print', 'exec', 'self', 'a1']
 NUMBERS = ['0', '1', '2.5', '0x1f', '1_0', '3j', '1e5', '0b101', '0o17', '.5', '7.']
-STRINGS = ['"s"', "'t'", 'b"b"', 'r"""x"""', "u'u'", "rb'\\d'", '"""a\nb"""', "'\\n'", '""']
+STRINGS = ['"s"', "'t'", 'b"b"', 'r"""x"""', "u'u'", "rb'\\d'", '"""a\nb"""', "'\\n'", '""',
+           # one-line strings continued with backslash-newline, the other quote kind early in the text
+           '"\'a\' b\\\nc"', "'\"q\\\nr'", 'r"\'\\\nx"', "b'a\"\\\n'", '"x\'y\\\nz"', "'\\\n'"]
 
 
 def realize(label, rng, T):
